@@ -284,7 +284,7 @@ def r15_4(ctx, repo):
                 return super()._call(n, env, fn, depth, owner)
         lf = LP(repo, cls, flags={'n_samples is None': False})
         lf.choices = []
-        env = {}
+        env = {'n_samples': sym('n_samples')}
         pre = []
         for st in fn.body:
             if st is l:
@@ -304,6 +304,28 @@ def r15_4(ctx, repo):
             arg = kw.get('parameters', calls[0].args[0]
                          if calls[0].args else None)
         pname = arg.id if isinstance(arg, ast.Name) else None
+        # loop variables that walk a vector of pre-drawn random indices
+        from ..shapes import RandIdx
+        it_, tg_ = l.iter, l.target
+        if isinstance(it_, ast.Call) and U(it_.func) == 'enumerate' \
+                and it_.args and isinstance(tg_, ast.Tuple) \
+                and len(tg_.elts) == 2:
+            it_, tg_ = it_.args[0], tg_.elts[1]
+        pairs_ = []
+        if isinstance(it_, ast.Call) and U(it_.func) == 'zip' and isinstance(
+                tg_, ast.Tuple) and len(tg_.elts) == len(it_.args):
+            pairs_ = list(zip(tg_.elts, it_.args))
+        elif isinstance(tg_, ast.Name):
+            pairs_ = [(tg_, it_)]
+        for t_, a_ in pairs_:
+            try:
+                av = lf.ev(a_, env, fn, 0, cls)
+            except Exception:
+                av = None
+            if isinstance(t_, ast.Name) and isinstance(av, Arr) \
+                    and getattr(av, 'randbound', None) is not None:
+                env[t_.id] = RandIdx(av.randbound)
+        lf.events = []
         picks = [s for s in l.body if isinstance(s, ast.Assign)
                  and U(s.targets[0]) == pname]
         for s in picks:
@@ -316,6 +338,8 @@ def r15_4(ctx, repo):
             rows_ok = lf.choices and eq(lf.choices[-1].axes[0].size,
                                         N_C * N_D)
             if lf.events:
+                for e_ in lf.events:
+                    e_.kind = 'layout' if e_.kind == 'shape' else e_.kind
                 _emit_events(ctx, rule, repo, cls, fn, lf, construct)
             elif lf.choices and rows_ok:
                 ctx.ok(rule, where, construct,
